@@ -1,7 +1,7 @@
 #!/bin/bash
 # usage: tools/confirm_seed.sh <PROP> [name]   -- confirms the seed left by a sub-agent in /tmp/seed_<PROP> and stores it in /verif/seeded/<name>
 # Confirms: patch applies to pristine /repo HEAD; worktree (patched) builds; 19 tests pass with patch; demo fails with patch; demo passes against unpatched /repo/_build/liblzma.a
-P=$1; NAME=${2:-$P-1}; W=/tmp/seed_$P; D=/verif/seeded/$NAME
+P=$1; NAME=${2:-$P-1}; W=${W:-/tmp/seed_$P}; D=/verif/seeded/$NAME
 mkdir -p $D; cp $W/SEED/patch.diff $D/; cp $W/SEED/demo.* $D/ 2>/dev/null; rm -f $D/demo; cp $W/SEED/meta.json $D/agent_meta.json
 log=$D/confirm.log; : > $log
 git -C /repo apply --check $D/patch.diff >>$log 2>&1 && applies=true || applies=false
